@@ -1,4 +1,5 @@
 //! mc-aggregator: serves C14, C15, C16 (see /verif/DESIGN.md §4) on the real aggregator.
+mod c07agg;
 mod c14;
 mod c15;
 mod c16;
@@ -10,6 +11,7 @@ fn main() {
     let ctx = mc_core::Ctx::from_args();
     mc_core::quiet_panics();
     match ctx.property.as_str() {
+        "C07" => c07agg::run(&ctx),
         "C14" => c14::run(&ctx),
         "C15" => c15::run(&ctx),
         "C16" => c16::run(&ctx),
